@@ -188,6 +188,14 @@ pub fn run_case(case: &OwnerCase) -> Result<OStats, String> {
                 barrier.wait();
                 // the owner is undisturbed: everything acknowledged so far is readable, writes work
                 if let Some(d) = db.as_ref() {
+                    // nobody may delete the files of a running instance
+                    for name in ["owned-db/CURRENT", "owned-db/LOCK"] {
+                        if fs.open_file(std::path::Path::new(name)).is_err() {
+                            errors.lock().unwrap().push(format!(
+                                "round {r}: {name} of the running instance (thread {t}) was deleted while the instance was open"
+                            ));
+                        }
+                    }
                     for (k, v) in own.iter().rev().take(40) {
                         match d.get(ReadOptions::default(), k) {
                             Ok(g) if &g == v => {}
@@ -388,7 +396,7 @@ fn guarded(case: &OwnerCase) -> Outcome {
 
 pub fn worker(ctx: &WorkerCtx) -> WorkerResult {
     let cases = match ctx.tier {
-        Tier::Quick => 3000u64,
+        Tier::Quick => 8000u64,
         Tier::Thorough => 20_000,
     };
     let cases = std::env::var("VERIF_CASES").ok().and_then(|s| s.parse().ok()).unwrap_or(cases);
